@@ -121,6 +121,9 @@ def check(recipe) -> list[Fail]:
             ens = ml.ConformerEnsemble(src_ens)
         elif how == "from_molecule":
             ens = ml.ConformerEnsemble(chem.build_molecule(base, ml.Molecule))
+        elif how == "from_molecule_n":
+            # the pattern of the conformer-search drivers: room for k conformers of one molecule
+            ens = ml.ConformerEnsemble(chem.build_molecule(base, ml.Molecule), n_conformers=1 + len(base["confs"]))
         elif how == "from_molecule_list":
             nfr = max(1, len(base["confs"]))
             mols = [chem.build_molecule(dict(base, coords=base["confs"][k] if base["confs"] else base["coords"], charges=(base["conf_charges"][k] if base["confs"] else base["charges"])), ml.Molecule) for k in range(nfr)]
@@ -401,6 +404,10 @@ def check(recipe) -> list[Fail]:
                             b2 = ml.Molecule.loads_mol2(t_m2)
                             if b2.n_atoms != na or not np.allclose(b2.coords, model.coords[i], atol=1e-6, rtol=0) or not np.allclose(b2.atomic_charges, model.charges[i], atol=6e-4, rtol=0):
                                 return [Fail("conformer-dump-does-not-read-back-as-its-row:mol2", f"step {step} conformer {i}")]
+                            # a conformer is a full molecule view: it goes by the name of its ensemble (when that is a plain one-line name)
+                            nm_ = ens.name
+                            if isinstance(nm_, str) and nm_.strip() == nm_ and nm_ and nm_.isascii() and nm_.isprintable() and not nm_.startswith(("#", "@")) and ens[i].name == nm_ and b2.name != nm_:
+                                return [Fail("conformer-written-under-another-name:mol2", f"step {step} conformer {i}: ensemble {nm_!r}, written conformer reads back as {b2.name!r}")]
                 txt = ens.dumps_xyz()
                 if na and finite and len(ml.Molecule.loads_all_xyz(txt)) != nc:
                     return [Fail("ensemble-dump-frame-count", f"step {step}")]
@@ -518,7 +525,7 @@ def strat(tier):
         st.tuples(st.just("serialise"), st.sampled_from(["codec", "pickle", "library"]), st.booleans()).map(list),
     )
     return st.fixed_dictionaries({
-        "construct": st.sampled_from(["recipe", "recipe", "from_ensemble", "from_molecule", "from_molecule_list", "n_only", "elements"]),
+        "construct": st.sampled_from(["recipe", "recipe", "from_ensemble", "from_molecule", "from_molecule_n", "from_molecule_list", "n_only", "elements"]),
         "mol": ensr, "ops": st.lists(op, min_size=1, max_size=30 if tier != "quick" else 16),
     })
 
